@@ -63,6 +63,9 @@ func isSyncType(t types.Type) bool {
 func runC15(c *Ctx) {
 	r := c.R
 	defer ruleOwnership(c, "R15.4")
+	defer rulePeekLifetime(c, "R15.6", "C15: a payload aliasing the reader's buffer is read by the application / a forwarding writer while the reader goroutine refills it")
+	defer rulePayloadOwnership(c, "R15.7", "C15: a payload in reader-owned scratch memory is rewritten by the reader goroutine while the frame is in use elsewhere")
+	defer ruleCodecNoSharedWrites(c, "R15.8", "C15: unsynchronised writes to memory shared by all channel readers and all writing goroutines")
 	defer func() {
 		c.R.Rule("R15.5", "the codec objects shared by all goroutines of a node keep no scratch state: ReadWriter.Write encodes into a buffer it allocates per call (= R4.4)", 2)
 		ruleEncodeBuffer(c, "R15.5")
@@ -128,12 +131,17 @@ func runC15(c *Ctx) {
 		return out
 	}
 	// init-phase functions: run before the object is published to other goroutines
-	isInit := func(fn *ssa.Function) bool {
+	// (an initialiser initialises its own receiver: Channel.initialize storing into a field of the Node it belongs
+	// to runs in a provider goroutine while the node is live — that is a late write to the Node)
+	isInitOf := func(fn *ssa.Function, owner string) bool {
 		n := fnLocalName(fn)
 		if i := strings.Index(n, "$"); i >= 0 {
 			n = n[:i]
 		}
-		return strings.HasSuffix(n, ".Initialize") || strings.HasSuffix(n, ".initialize") || strings.HasSuffix(n, ".init") || strings.HasPrefix(n, "New") || n == "init"
+		if strings.HasSuffix(n, ".Initialize") || strings.HasSuffix(n, ".initialize") || strings.HasSuffix(n, ".init") {
+			return owner == "" || n[:strings.LastIndex(n, ".")] == owner[strings.LastIndex(owner, ".")+1:]
+		}
+		return strings.HasPrefix(n, "New") || n == "init"
 	}
 
 	// collect accesses to fields of the node-side and codec structs
@@ -219,7 +227,7 @@ func runC15(c *Ctx) {
 			// sync objects: only initialisation may assign them
 			bad := ""
 			for _, a := range as {
-				if a.write && !isInit(a.fn) {
+				if a.write && !isInitOf(a.fn, a.owner) {
 					bad = fnLocalName(a.fn) + " (" + c.Pos(a.instr.Pos()) + ")"
 				}
 			}
@@ -228,7 +236,7 @@ func runC15(c *Ctx) {
 		}
 		var late []access
 		for _, a := range as {
-			if a.write && !isInit(a.fn) {
+			if a.write && !isInitOf(a.fn, a.owner) {
 				late = append(late, a)
 			}
 		}
@@ -239,7 +247,7 @@ func runC15(c *Ctx) {
 		// post-init accesses
 		var post []access
 		for _, a := range as {
-			if !isInit(a.fn) {
+			if !isInitOf(a.fn, a.owner) {
 				post = append(post, a)
 			}
 		}
@@ -276,7 +284,12 @@ func runC15(c *Ctx) {
 				rootSet[x] = true
 			}
 		}
-		if len(rootSet) == 1 && !rootSet["api"] {
+		// a root is a single goroutine only relative to the object it serves: there is one loop, one heartbeat and one
+		// stream-request goroutine per node, but one provider per endpoint and one run / reader / writer per channel —
+		// node-wide objects touched from those are touched from many goroutines at once
+		nodeWide := as[0].owner == "gomavlib.Node" || as[0].owner == "gomavlib.nodeHeartbeat" || as[0].owner == "gomavlib.nodeStreamRequest" || as[0].owner == "dialect.ReadWriter" || as[0].owner == "message.ReadWriter"
+		manyPerNode := rootSet["provider"] || rootSet["chrun"] || rootSet["reader"] || rootSet["writer"]
+		if len(rootSet) == 1 && !rootSet["api"] && !(nodeWide && manyPerNode) {
 			r.OK("R15.1", key, c.Pos(f.Pos()), fmt.Sprintf("confined to goroutine root %v (%d accesses)", keysOf(rootSet), len(post)))
 			continue
 		}
